@@ -4,123 +4,123 @@ import "time"
 
 var plans = map[string]plan{
 	"C01": {
-		Quick:    tierPlan{Shards: 16, Checks: 6, Shrink: "60s", Limit: 20 * time.Minute},
-		Thorough: tierPlan{Shards: 16, Checks: 120, Shrink: "5m", Limit: 3 * time.Hour},
-		Rule: "each case is a generated package (types + 6-24 derive calls over the supported grammar, in function/method/var/closure/_test/nested/curried call-site forms) run through the freshly built goderive and judged by exit status, gofmt, go/types (incl. test variant), call resolution into derived.gen.go and go vet's compile step; non-trivial = package has a nested derive call, an imported struct with unexported fields, two same-named imports in use, a map (helper chain compare->sort->keys) or unique (hash+equal helpers); distinct by source hash",
+		Quick:       tierPlan{Shards: 16, Checks: 6, Shrink: "60s", Limit: 20 * time.Minute},
+		Thorough:    tierPlan{Shards: 16, Checks: 120, Shrink: "5m", Limit: 3 * time.Hour},
+		Rule:        "each case is a generated package (types + 6-24 derive calls over the supported grammar, in function/method/var/closure/_test/nested/curried call-site forms) run through the freshly built goderive and judged by exit status, gofmt, go/types (incl. test variant), call resolution into derived.gen.go and go vet's compile step; non-trivial = package has a nested derive call, an imported struct with unexported fields, two same-named imports in use, a map (helper chain compare->sort->keys) or unique (hash+equal helpers); distinct by source hash",
 		Assumptions: []string{"go/types, gofmt and cmd/compile are correct", "supported set per plugin taken from plugin docs / Readme (DESIGN.md section 4)"},
 	},
 	"C02": {
-		Quick:    tierPlan{Shards: 16, Checks: 2, Shrink: "45s", Limit: 20 * time.Minute},
-		Thorough: tierPlan{Shards: 16, Checks: 40, Shrink: "3m", Limit: 3 * time.Hour},
-		Rule: "outer case = generated subject package (14 argument types over the supported grammar, with equal / curried / 5 context wrappers each); inner cases = value pairs (independent, rebuilt at fresh addresses with permuted maps and different capacity, or exactly one leaf / nil-ness / length / key mutation) plus a third value for transitivity, judged against the reflection-based structural reference; non-trivial = rebuild or single-mutation pair whose value holds a non-nil pointer/slice/map; distinct by (type, encoding of a, encoding of b)",
+		Quick:       tierPlan{Shards: 16, Checks: 2, Shrink: "45s", Limit: 20 * time.Minute},
+		Thorough:    tierPlan{Shards: 16, Checks: 40, Shrink: "3m", Limit: 3 * time.Hour},
+		Rule:        "outer case = generated subject package (14 argument types over the supported grammar, with equal / curried / 5 context wrappers each); inner cases = value pairs (independent, rebuilt at fresh addresses with permuted maps and different capacity, or exactly one leaf / nil-ness / length / key mutation) plus a third value for transitivity, judged against the reflection-based structural reference; non-trivial = rebuild or single-mutation pair whose value holds a non-nil pointer/slice/map; distinct by (type, encoding of a, encoding of b)",
 		Assumptions: []string{"vref.Eq is the statement of C02 (self-tested: equivalence, agrees with canonical encoding)", "user Equal methods generated for the subject are equivalence relations"},
 	},
 	"C03": {
-		Quick:    tierPlan{Shards: 16, Checks: 2, Shrink: "45s", Limit: 20 * time.Minute},
-		Thorough: tierPlan{Shards: 16, Checks: 40, Shrink: "3m", Limit: 3 * time.Hour},
-		Rule: "outer case = generated subject package (14 types with compare / curried compare / equal); inner case = a pool of 4-6 values (a, rebuild of a, a chain of single mutations, an independent value): every ordered pair is one evaluation (range, antisymmetry, ==0 iff derived Equal iff structural equality, curried form) and every triple is checked for transitivity; direction asserted for single leaf / nil-ness mutations that Equal distinguishes; non-trivial = Compare==0 pair at distinct addresses, or a direction pair whose difference lies below the root; distinct by (type, encodings)",
+		Quick:       tierPlan{Shards: 16, Checks: 2, Shrink: "45s", Limit: 20 * time.Minute},
+		Thorough:    tierPlan{Shards: 16, Checks: 40, Shrink: "3m", Limit: 3 * time.Hour},
+		Rule:        "outer case = generated subject package (14 types with compare / curried compare / equal); inner case = a pool of 4-6 values (a, rebuild of a, a chain of single mutations, an independent value): every ordered pair is one evaluation (range, antisymmetry, ==0 iff derived Equal iff structural equality, curried form) and every triple is checked for transitivity; direction asserted for single leaf / nil-ness mutations that Equal distinguishes; non-trivial = Compare==0 pair at distinct addresses, or a direction pair whose difference lies below the root; distinct by (type, encodings)",
 		Assumptions: []string{"vref reference (self-tested)", "no user Compare/Equal methods in C03 subjects (the statement does not speak about them)"},
 	},
 	"C04": {
-		Quick:    tierPlan{Shards: 16, Checks: 2, Shrink: "45s", Limit: 20 * time.Minute},
-		Thorough: tierPlan{Shards: 16, Checks: 40, Shrink: "3m", Limit: 3 * time.Hour},
-		Rule: "outer case = generated subject package (14 types with hash and equal); inner case = a pair that is Equal by construction (rebuilt at fresh addresses with permuted map insertion, different capacity, un-shared pointers; or additionally +0/-0 rewritten) on which derived Equal and the structural reference agree; judged: same hash, repeatable, argument snapshot unchanged, and the same values re-hashed in a second process; non-trivial = the two members differ in capacity / sharing / zero sign or hold a map with >= 2 entries; distinct by (type, snapshots)",
+		Quick:       tierPlan{Shards: 16, Checks: 2, Shrink: "45s", Limit: 20 * time.Minute},
+		Thorough:    tierPlan{Shards: 16, Checks: 40, Shrink: "3m", Limit: 3 * time.Hour},
+		Rule:        "outer case = generated subject package (14 types with hash and equal); inner case = a pair that is Equal by construction (rebuilt at fresh addresses with permuted map insertion, different capacity, un-shared pointers; or additionally +0/-0 rewritten) on which derived Equal and the structural reference agree; judged: same hash, repeatable, argument snapshot unchanged, and the same values re-hashed in a second process; non-trivial = the two members differ in capacity / sharing / zero sign or hold a map with >= 2 entries; distinct by (type, snapshots)",
 		Assumptions: []string{"vref reference (self-tested)", "the second process regenerates the same values from the same rapid seed (only values present in both runs are compared)"},
 	},
 	"C05": {
-		Quick:    tierPlan{Shards: 16, Checks: 2, Shrink: "45s", Limit: 20 * time.Minute},
-		Thorough: tierPlan{Shards: 16, Checks: 40, Shrink: "3m", Limit: 3 * time.Hour},
-		Rule: "outer case = generated subject package (14 types, most wrapped in a top-level pointer/slice/map, with clone and deepcopy); inner case = source value (nil/empty/shared substructure) and an independently drawn tree-shaped prior destination (pointer to arbitrary contents / slice of equal length / empty map); judged: structural equality, source snapshot unchanged, allocation sets disjoint, scribbling one side leaves the other's snapshot unchanged; non-trivial = source reaches a non-nil pointer/slice/map below the root and the prior destination differs from it; distinct by (type, source snapshot, prior destination snapshot)",
+		Quick:       tierPlan{Shards: 16, Checks: 2, Shrink: "45s", Limit: 20 * time.Minute},
+		Thorough:    tierPlan{Shards: 16, Checks: 40, Shrink: "3m", Limit: 3 * time.Hour},
+		Rule:        "outer case = generated subject package (14 types, most wrapped in a top-level pointer/slice/map, with clone and deepcopy); inner case = source value (nil/empty/shared substructure) and an independently drawn tree-shaped prior destination (pointer to arbitrary contents / slice of equal length / empty map); judged: structural equality, source snapshot unchanged, allocation sets disjoint, scribbling one side leaves the other's snapshot unchanged; non-trivial = source reaches a non-nil pointer/slice/map below the root and the prior destination differs from it; distinct by (type, source snapshot, prior destination snapshot)",
 		Assumptions: []string{"vref reference, Addrs and Scribble (self-tested)", "string bytes and zero-size allocations are not counted as shared memory"},
 	},
 	"C13": {
-		Quick:    tierPlan{Shards: 16, Checks: 2, Shrink: "45s", Limit: 20 * time.Minute},
-		Thorough: tierPlan{Shards: 16, Checks: 40, Shrink: "3m", Limit: 3 * time.Hour},
-		Rule: "outer case = generated subject package (14 element/key types with sort, keys, min/max list and two-value forms, compare, equal); inner case = one operation on a drawn list (nil, empty, 1-6 elements with identical and Equal-but-not-identical duplicates) or map; judged by permutation (multiset of bit-exact encodings, pointer identities), sortedness under derived Compare (natural < for basic types), exactly-once keys, membership + extremality of min/max, default on empty; non-trivial = list of >= 3 elements that is unsorted or has duplicates, map of >= 2 keys, any two-value call; distinct by (type, operation, encoding)",
+		Quick:       tierPlan{Shards: 16, Checks: 2, Shrink: "45s", Limit: 20 * time.Minute},
+		Thorough:    tierPlan{Shards: 16, Checks: 40, Shrink: "3m", Limit: 3 * time.Hour},
+		Rule:        "outer case = generated subject package (14 element/key types with sort, keys, min/max list and two-value forms, compare, equal); inner case = one operation on a drawn list (nil, empty, 1-6 elements with identical and Equal-but-not-identical duplicates) or map; judged by permutation (multiset of bit-exact encodings, pointer identities), sortedness under derived Compare (natural < for basic types), exactly-once keys, membership + extremality of min/max, default on empty; non-trivial = list of >= 3 elements that is unsorted or has duplicates, map of >= 2 keys, any two-value call; distinct by (type, operation, encoding)",
 		Assumptions: []string{"vref reference (self-tested)", "derived Compare is judged by C03; here it is the order the statement refers to"},
 	},
 	"C14": {
-		Quick:    tierPlan{Shards: 16, Checks: 2, Shrink: "45s", Limit: 20 * time.Minute},
-		Thorough: tierPlan{Shards: 16, Checks: 40, Shrink: "3m", Limit: 3 * time.Hour},
-		Rule: "outer case = generated subject package (14 element types, ==-comparable and not, with contains, unique, set, union/intersect on lists and maps, filter, takewhile, all, any, equal); inner case = one operation on drawn lists with duplicates / Equal-but-not-identical elements / nil elements and a logging predicate from a small family; judged against a list/set reference model parameterised by derived Equal (cross-checked with the structural reference) and the predicate call log; non-trivial = list of >= 3 elements with a duplicate pair; distinct by (type, operation, encoding)",
+		Quick:       tierPlan{Shards: 16, Checks: 2, Shrink: "45s", Limit: 20 * time.Minute},
+		Thorough:    tierPlan{Shards: 16, Checks: 40, Shrink: "3m", Limit: 3 * time.Hour},
+		Rule:        "outer case = generated subject package (14 element types, ==-comparable and not, with contains, unique, set, union/intersect on lists and maps, filter, takewhile, all, any, equal); inner case = one operation on drawn lists with duplicates / Equal-but-not-identical elements / nil elements and a logging predicate from a small family; judged against a list/set reference model parameterised by derived Equal (cross-checked with the structural reference) and the predicate call log; non-trivial = list of >= 3 elements with a duplicate pair; distinct by (type, operation, encoding)",
 		Assumptions: []string{"vref reference (self-tested)", "pairs on which derived Equal and the reference disagree are skipped here (C02 judges them)"},
 	},
 	"C17": {
-		Quick:    tierPlan{Shards: 16, Checks: 2, Shrink: "45s", Limit: 20 * time.Minute},
-		Thorough: tierPlan{Shards: 16, Checks: 40, Shrink: "3m", Limit: 3 * time.Hour},
-		Rule: "outer case = generated subject package (14 element/result types with fmap over slices (two result types), fmap over strings, join of slices, join of strings); inner case = one call with a scripted, logging f on slices of length 0-6 (nil vs empty), slices of slices with nil/empty inner lists, strings over ASCII, 2-4 byte runes and invalid UTF-8; judged against map over the elements / []rune(s) and concatenation, call log in order, inputs unmodified; non-trivial = string whose byte length differs from its rune count, or slice of slices with an empty and a non-empty inner list, or fmap over >= 2 elements; distinct by input encoding",
+		Quick:       tierPlan{Shards: 16, Checks: 2, Shrink: "45s", Limit: 20 * time.Minute},
+		Thorough:    tierPlan{Shards: 16, Checks: 40, Shrink: "3m", Limit: 3 * time.Hour},
+		Rule:        "outer case = generated subject package (14 element/result types with fmap over slices (two result types), fmap over strings, join of slices, join of strings); inner case = one call with a scripted, logging f on slices of length 0-6 (nil vs empty), slices of slices with nil/empty inner lists, strings over ASCII, 2-4 byte runes and invalid UTF-8; judged against map over the elements / []rune(s) and concatenation, call log in order, inputs unmodified; non-trivial = string whose byte length differs from its rune count, or slice of slices with an empty and a non-empty inner list, or fmap over >= 2 elements; distinct by input encoding",
 		Assumptions: []string{"vref encoder (self-tested)"},
 	},
 	"C15": {
-		Quick:    tierPlan{Shards: 16, Checks: 2, Shrink: "45s", Limit: 20 * time.Minute},
-		Thorough: tierPlan{Shards: 16, Checks: 40, Shrink: "3m", Limit: 3 * time.Hour},
-		Rule: "outer case = generated subject package: 14 non-variadic signatures with 2-5 parameters of mixed types (incl. error / interface{}), named / blank / unnamed / generator-hostile parameter names (f, g, err, param_0, v0 ...), 0-3 results, each wrapped by curry, flip, apply, uncurry, uncurry-of-curry and tuple; inner case = drawn arguments and scripted results through an instrumented f: exactly one call, every argument in its position (identity for pointers/slices/maps), results unchanged; non-trivial = signature with >= 3 parameters of >= 2 distinct types; distinct by (signature, operation, arguments)",
+		Quick:       tierPlan{Shards: 16, Checks: 2, Shrink: "45s", Limit: 20 * time.Minute},
+		Thorough:    tierPlan{Shards: 16, Checks: 40, Shrink: "3m", Limit: 3 * time.Hour},
+		Rule:        "outer case = generated subject package: 14 non-variadic signatures with 2-5 parameters of mixed types (incl. error / interface{}), named / blank / unnamed / generator-hostile parameter names (f, g, err, param_0, v0 ...), 0-3 results, each wrapped by curry, flip, apply, uncurry, uncurry-of-curry and tuple; inner case = drawn arguments and scripted results through an instrumented f: exactly one call, every argument in its position (identity for pointers/slices/maps), results unchanged; non-trivial = signature with >= 3 parameters of >= 2 distinct types; distinct by (signature, operation, arguments)",
 		Assumptions: []string{"reflect.MakeFunc stubs observe exactly the calls made through the function value"},
 	},
 	"C16": {
-		Quick:    tierPlan{Shards: 16, Checks: 2, Shrink: "45s", Limit: 20 * time.Minute},
-		Thorough: tierPlan{Shards: 16, Checks: 40, Shrink: "3m", Limit: 3 * time.Hour},
-		Rule: "outer case = generated subject package with 16 error-propagating forms: compose chains of 2-4 stages with 0-3 intermediate/final results over basic, named basic, struct, array, pointer, slice, map and interface types; the error forms of fmap (0, 1, >=2 results) and join; traverse; toerror; inner case = drawn arguments, scripted stage results, a drawn failing stage / index (or none) with a distinct error value per stage; judged by the call log (left to right, at most once, none after the failure, exactly the previous results by identity), error identity, zero values on failure, pass-through on success; non-trivial = >= 3 stages or >= 2 results with the failure not at the first stage (and the analogous rule per form); distinct by (form, signature, arguments, failing position)",
+		Quick:       tierPlan{Shards: 16, Checks: 2, Shrink: "45s", Limit: 20 * time.Minute},
+		Thorough:    tierPlan{Shards: 16, Checks: 40, Shrink: "3m", Limit: 3 * time.Hour},
+		Rule:        "outer case = generated subject package with 16 error-propagating forms: compose chains of 2-4 stages with 0-3 intermediate/final results over basic, named basic, struct, array, pointer, slice, map and interface types; the error forms of fmap (0, 1, >=2 results) and join; traverse; toerror; inner case = drawn arguments, scripted stage results, a drawn failing stage / index (or none) with a distinct error value per stage; judged by the call log (left to right, at most once, none after the failure, exactly the previous results by identity), error identity, zero values on failure, pass-through on success; non-trivial = >= 3 stages or >= 2 results with the failure not at the first stage (and the analogous rule per form); distinct by (form, signature, arguments, failing position)",
 		Assumptions: []string{"reflect.MakeFunc stubs observe exactly the calls made"},
 	},
 	"C18": {
-		Quick:    tierPlan{Shards: 16, Checks: 2, Shrink: "45s", Limit: 20 * time.Minute},
-		Thorough: tierPlan{Shards: 16, Checks: 40, Shrink: "3m", Limit: 3 * time.Hour},
-		Rule: "outer case = generated subject package with 14 signatures (0-3 parameters, 0-3 results over ==-comparable and non-comparable types incl. pointers, slices, maps, interfaces) wrapped by deriveMem; inner case = a call sequence of 4-24 steps against one memoised function: fresh arguments, an identical earlier tuple, an Equal-but-not-identical rebuild, a hash-colliding tuple (Aa/BB swap); every step is one evaluation; judged: results are exactly f's for the class, f's call count never exceeds the number of distinct classes (class = canonical structural encoding, +-0 identified), zero-argument form runs f once; non-trivial = sequence containing an Equal-but-not-identical repeat; distinct by (signature, sequence)",
+		Quick:       tierPlan{Shards: 16, Checks: 2, Shrink: "45s", Limit: 20 * time.Minute},
+		Thorough:    tierPlan{Shards: 16, Checks: 40, Shrink: "3m", Limit: 3 * time.Hour},
+		Rule:        "outer case = generated subject package with 14 signatures (0-3 parameters, 0-3 results over ==-comparable and non-comparable types incl. pointers, slices, maps, interfaces) wrapped by deriveMem; inner case = a call sequence of 4-24 steps against one memoised function: fresh arguments, an identical earlier tuple, an Equal-but-not-identical rebuild, a hash-colliding tuple (Aa/BB swap); every step is one evaluation; judged: results are exactly f's for the class, f's call count never exceeds the number of distinct classes (class = canonical structural encoding, +-0 identified), zero-argument form runs f once; non-trivial = sequence containing an Equal-but-not-identical repeat; distinct by (signature, sequence)",
 		Assumptions: []string{"f is made deterministic per argument class by a result table keyed by the canonical encoding", "vref encoder (self-tested)"},
 	},
 	"C06": {
-		Quick:    tierPlan{Shards: 6, Checks: 1, Shrink: "1s", Limit: 20 * time.Minute},
-		Thorough: tierPlan{Shards: 16, Checks: 4, Shrink: "1s", Limit: 3 * time.Hour},
-		Rule: "outer case = generated library package (14 exported-field types incl. imported structs, struct-keyed maps, pointer chains); inner case = a drawn value (finite floats, hostile strings, extreme integers, nil/empty containers) whose deriveGoString text is written into a second-stage package of the same module; stage 2 must compile (errors mapped back to cases by line) and every expression must evaluate to a value with the same canonical structural encoding (nil vs empty, pointer targets); non-trivial = every compiled-and-evaluated expression of a value holding a non-nil container or a non-empty string; distinct by (type, encoding)",
+		Quick:       tierPlan{Shards: 6, Checks: 1, Shrink: "1s", Limit: 20 * time.Minute},
+		Thorough:    tierPlan{Shards: 16, Checks: 4, Shrink: "1s", Limit: 3 * time.Hour},
+		Rule:        "outer case = generated library package (14 exported-field types incl. imported structs, struct-keyed maps, pointer chains); inner case = a drawn value (finite floats, hostile strings, extreme integers, nil/empty containers) whose deriveGoString text is written into a second-stage package of the same module; stage 2 must compile (errors mapped back to cases by line) and every expression must evaluate to a value with the same canonical structural encoding (nil vs empty, pointer targets); non-trivial = every compiled-and-evaluated expression of a value holding a non-nil container or a non-empty string; distinct by (type, encoding)",
 		Assumptions: []string{"cmd/compile as the judge of 'is a Go expression'", "vref.Key equality is structural equality (self-tested)"},
 	},
 	"C09": {
-		Quick:    tierPlan{Shards: 16, Checks: 6, Shrink: "60s", Limit: 30 * time.Minute},
-		Thorough: tierPlan{Shards: 16, Checks: 200, Shrink: "5m", Limit: 4 * time.Hour},
-		Rule: "each case is a generated package with exactly one injected fault: an unsupported constituent (chan, func, interface, unsafe.Pointer, unnamed non-comparable struct) as argument, field, slice/array element, map key/value, pointer target or nested two levels down, for one of 22 typed plugin forms; or a misuse from a 75-entry catalogue (wrong arity, mismatched argument types, non-function / non-slice / non-map arguments, unordered types for min/max, variadic signatures, missing error/bool results); or a broken user file (syntax error, undefined identifier/type, missing import, generics, alias, cyclic type ...), optionally with healthy neighbour calls; judged: terminates (60 s then 150 s re-run; a run takes about 1 s), exit status 0/1 without a Go panic trace, non-empty message when non-zero, and on exit 0 a derived.gen.go that parses and a package that type-checks; non-trivial = fault below the top level of the argument or in a user file; distinct by (plugin, fault, position, sources)",
+		Quick:       tierPlan{Shards: 16, Checks: 6, Shrink: "60s", Limit: 30 * time.Minute},
+		Thorough:    tierPlan{Shards: 16, Checks: 200, Shrink: "5m", Limit: 4 * time.Hour},
+		Rule:        "each case is a generated package with exactly one injected fault: an unsupported constituent (chan, func, interface, unsafe.Pointer, unnamed non-comparable struct) as argument, field, slice/array element, map key/value, pointer target or nested two levels down, for one of 22 typed plugin forms; or a misuse from a 75-entry catalogue (wrong arity, mismatched argument types, non-function / non-slice / non-map arguments, unordered types for min/max, variadic signatures, missing error/bool results); or a broken user file (syntax error, undefined identifier/type, missing import, generics, alias, cyclic type ...), optionally with healthy neighbour calls; judged: terminates (60 s then 150 s re-run; a run takes about 1 s), exit status 0/1 without a Go panic trace, non-empty message when non-zero, and on exit 0 a derived.gen.go that parses and a package that type-checks; non-trivial = fault below the top level of the argument or in a user file; distinct by (plugin, fault, position, sources)",
 		Assumptions: []string{"the only wall-clock verdict: a hang is asserted after 60 s and again after 150 s (about 100x a normal run)", "whether the message names the call or type is not judged"},
 	},
 	"C08": {
-		Quick:    tierPlan{Shards: 16, Checks: 8, Shrink: "60s", Limit: 30 * time.Minute},
-		Thorough: tierPlan{Shards: 16, Checks: 60, Shrink: "5m", Limit: 4 * time.Hour},
-		Rule: "each case is a generated module (package p with 1-3 families of mutually assignable types - several named types and the unnamed type over one underlying type - used side by side as struct fields under hash/equal/compare/clone/gostring/deepcopy plus 2-12 random calls, package q importing p with calls of its own); judged: one sha256 of p/derived.gen.go over N identical fresh runs (quick 6, thorough 25) and over 6 further invocation spellings (., ./..., import path, package list in both orders); non-trivial = >= 2 tie members or >= 3 plugins; distinct by sources",
+		Quick:       tierPlan{Shards: 16, Checks: 8, Shrink: "60s", Limit: 30 * time.Minute},
+		Thorough:    tierPlan{Shards: 16, Checks: 60, Shrink: "5m", Limit: 4 * time.Hour},
+		Rule:        "each case is a generated module (package p with 1-3 families of mutually assignable types - several named types and the unnamed type over one underlying type - used side by side as struct fields under hash/equal/compare/clone/gostring/deepcopy plus 2-12 random calls, package q importing p with calls of its own); judged: one sha256 of p/derived.gen.go over N identical fresh runs (quick 6, thorough 25) and over 6 further invocation spellings (., ./..., import path, package list in both orders); non-trivial = >= 2 tie members or >= 3 plugins; distinct by sources",
 		Assumptions: []string{"map iteration order is re-randomised by the Go runtime on every run; a very skewed choice could survive N runs"},
 	},
 	"C10": {
-		Quick:    tierPlan{Shards: 16, Checks: 40, Shrink: "60s", Limit: 30 * time.Minute},
-		Thorough: tierPlan{Shards: 16, Checks: 1500, Shrink: "5m", Limit: 4 * time.Hour},
-		Rule: "each case is a generated module: package p with 1-3 user files (gofmt-formatted or not, file/leading/trailing/inline comments around the calls), 1-6 derive calls whose names (lengths 11-70) and argument types are drawn so that conflicts and duplicates occur, an optional bystander file without derive calls, a non-Go file and a second package; run with one of the 4 flag sets and one of 3 outcomes (normal, generator error, load error); judged by a recursive snapshot (path, mode, sha256): without flags only p/derived.gen.go may differ; with flags a user file may change only if a derive call in it was renamed and must equal gofmt(original text with the renamed call identifiers substituted at the offsets found by an independent parse); non-trivial = a run that renames a call in place, or a failing run; distinct by (flags, sources)",
+		Quick:       tierPlan{Shards: 16, Checks: 40, Shrink: "60s", Limit: 30 * time.Minute},
+		Thorough:    tierPlan{Shards: 16, Checks: 1500, Shrink: "5m", Limit: 4 * time.Hour},
+		Rule:        "each case is a generated module: package p with 1-3 user files (gofmt-formatted or not, file/leading/trailing/inline comments around the calls), 1-6 derive calls whose names (lengths 11-70) and argument types are drawn so that conflicts and duplicates occur, an optional bystander file without derive calls, a non-Go file and a second package; run with one of the 4 flag sets and one of 3 outcomes (normal, generator error, load error); judged by a recursive snapshot (path, mode, sha256): without flags only p/derived.gen.go may differ; with flags a user file may change only if a derive call in it was renamed and must equal gofmt(original text with the renamed call identifiers substituted at the offsets found by an independent parse); non-trivial = a run that renames a call in place, or a failing run; distinct by (flags, sources)",
 		Assumptions: []string{"go/format as the definition of 'the gofmt formatting'"},
 	},
 	"C11": {
-		Quick:    tierPlan{Shards: 16, Checks: 15, Shrink: "60s", Limit: 30 * time.Minute},
-		Thorough: tierPlan{Shards: 16, Checks: 400, Shrink: "5m", Limit: 4 * time.Hour},
-		Rule: "exhaustive part: every assignment of k <= 3 (thorough: k <= 4) derive calls to names and argument types up to relabelling (all pairs of set partitions of the call positions, i.e. which calls share a name and which share a type list), x bare-prefix name first or second x calls in one file or alternating over two files x plugins {equal, hash, keys} x the 4 flag sets x with/without a user function that has the first fresh name; random part: 4-9 calls over 6 names x 4 types x 3 files; judged: exit status against an independently computed conflict/duplicate predicate, and on success go/types: package type-checks, each call site's callee has exactly the argument types, is generated (not the user's), and after -dedup one generated function per parameter list; non-trivial = assignment with a clash; distinct by canonical assignment + flags",
+		Quick:       tierPlan{Shards: 16, Checks: 15, Shrink: "60s", Limit: 30 * time.Minute},
+		Thorough:    tierPlan{Shards: 16, Checks: 400, Shrink: "5m", Limit: 4 * time.Hour},
+		Rule:        "exhaustive part: every assignment of k <= 3 (thorough: k <= 4) derive calls to names and argument types up to relabelling (all pairs of set partitions of the call positions, i.e. which calls share a name and which share a type list), x bare-prefix name first or second x calls in one file or alternating over two files x plugins {equal, hash, keys} x the 4 flag sets x with/without a user function that has the first fresh name; random part: 4-9 calls over 6 names x 4 types x 3 files; judged: exit status against an independently computed conflict/duplicate predicate, and on success go/types: package type-checks, each call site's callee has exactly the argument types, is generated (not the user's), and after -dedup one generated function per parameter list; non-trivial = assignment with a clash; distinct by canonical assignment + flags",
 		Assumptions: []string{"the four argument types are pairwise non-assignable, as the property quantifies"},
 	},
 	"C12": {
-		Quick:    tierPlan{Shards: 16, Checks: 15, Shrink: "60s", Limit: 30 * time.Minute},
-		Thorough: tierPlan{Shards: 16, Checks: 1200, Shrink: "5m", Limit: 4 * time.Hour},
-		Rule: "each case is a generated package (3-12 calls of structural and list plugins over the supported grammar) emitted with default names and with names rewritten for a drawn prefix map: a global -prefix, 1-4 per-plugin overrides (optionally on top of a global prefix), or nested overrides where one plugin's prefix is a proper prefix of another's (2-3 levels, either plugin may have the longer default prefix); the customised run uses the registered plugin order and one of three binaries built from a scratch copy of the repository whose registration list is reversed / rotated / sorted; judged: customised run succeeds, both outputs canonicalised (import aliases replaced by import paths, every generated function and callee renamed to its shape '(parameter types) result types', declarations sorted) are equal, every call the user wrote (deriveXTn) is answered in the customised output by the same canonical function as in the default output (this is the longest-match dispatch check: the plugin is read off what the function computes, never off its name), and for a global prefix the text is identical after substituting the prefix; non-trivial = nested overrides or >= 3 overrides; distinct by (flags, sources)",
+		Quick:       tierPlan{Shards: 16, Checks: 15, Shrink: "60s", Limit: 30 * time.Minute},
+		Thorough:    tierPlan{Shards: 16, Checks: 1200, Shrink: "5m", Limit: 4 * time.Hour},
+		Rule:        "each case is a generated package (3-12 calls of structural and list plugins over the supported grammar) emitted with default names and with names rewritten for a drawn prefix map: a global -prefix, 1-4 per-plugin overrides (optionally on top of a global prefix), or nested overrides where one plugin's prefix is a proper prefix of another's (2-3 levels, either plugin may have the longer default prefix); the customised run uses the registered plugin order and one of three binaries built from a scratch copy of the repository whose registration list is reversed / rotated / sorted; judged: customised run succeeds, both outputs canonicalised (import aliases replaced by import paths, every generated function and callee renamed to its shape '(parameter types) result types', declarations sorted) are equal, every call the user wrote (deriveXTn) is answered in the customised output by the same canonical function as in the default output (this is the longest-match dispatch check: the plugin is read off what the function computes, never off its name), and for a global prefix the text is identical after substituting the prefix; non-trivial = nested overrides or >= 3 overrides; distinct by (flags, sources)",
 		Assumptions: []string{"the registration list in main.go keeps the form 'x.NewPlugin(),' per line (otherwise the order variants are skipped and said so in the notes)"},
 	},
 	"C07": {
-		Quick:    tierPlan{Shards: 16, Checks: 6, Shrink: "60s", Limit: 30 * time.Minute},
-		Thorough: tierPlan{Shards: 16, Checks: 150, Shrink: "5m", Limit: 4 * time.Hour},
-		Rule: "each case is a history of 2-6 (thorough 2-10) edits over a generated package (a struct with 1-4 fields, a map type, 1-4 derive calls incl. nested ones whose argument type is the result type of another derive call: deriveSort(deriveKeys(m)), deriveUnique(deriveSort(l)), deriveHash(deriveSort(deriveKeys(m))) ..., optionally one call in a _test file): retype / add / remove a field, add / remove / re-target a call, change the type that flows between derive calls, rename the struct type, remove every call; after each edit, optionally, derived.gen.go is replaced by the first k bytes of the previous or of the new output (k at structural cut points: inside the header comment, package clause, import block, a signature, a body, or uniform); then goderive runs ONCE; every step is one evaluation; judged: exit 0, file byte-identical to a from-scratch run on a copy of the same sources (absent in both when no calls remain), final state type-checks; non-trivial = step whose old derived file is stale for a type used by a call, or truncated; distinct by (sources, old file)",
+		Quick:       tierPlan{Shards: 16, Checks: 6, Shrink: "60s", Limit: 30 * time.Minute},
+		Thorough:    tierPlan{Shards: 16, Checks: 150, Shrink: "5m", Limit: 4 * time.Hour},
+		Rule:        "each case is a history of 2-6 (thorough 2-10) edits over a generated package (a struct with 1-4 fields, a map type, 1-4 derive calls incl. nested ones whose argument type is the result type of another derive call: deriveSort(deriveKeys(m)), deriveUnique(deriveSort(l)), deriveHash(deriveSort(deriveKeys(m))) ..., optionally one call in a _test file): retype / add / remove a field, add / remove / re-target a call, change the type that flows between derive calls, rename the struct type, remove every call; after each edit, optionally, derived.gen.go is replaced by the first k bytes of the previous or of the new output (k at structural cut points: inside the header comment, package clause, import block, a signature, a body, or uniform); then goderive runs ONCE; every step is one evaluation; judged: exit 0, file byte-identical to a from-scratch run on a copy of the same sources (absent in both when no calls remain), final state type-checks; non-trivial = step whose old derived file is stale for a type used by a call, or truncated; distinct by (sources, old file)",
 		Assumptions: []string{"the from-scratch output is the reference (C08 checks that it is unique)"},
 	},
 	"C19": {
-		Quick:    tierPlan{Shards: 16, Checks: 1, Shrink: "30s", Limit: 30 * time.Minute},
-		Thorough: tierPlan{Shards: 16, Checks: 4, Shrink: "3m", Limit: 5 * time.Hour},
-		Rule: "two engines over the generated code of Fmap over a channel, the four channel forms of Join plus the variadic form (2-4 channels, mixed direction), Pipeline and Dup. (a) real runtime: the unmodified code, go1.26.8 -race, inside testing/synctest bubbles; a case is a configuration (form, 0-4 inputs, 0-3 items each (thorough 0-5), capacities 0-2, optional prefill) plus a schedule of the external actors: every send, close, hand-over and receive is preceded by a drawn virtual-time delay, which fixes the order of external steps (ties left to the runtime, GOMAXPROCS 1/2/4/16). (b) model scheduler: the generated file is rewritten (chan/go/select/range/close/sync.WaitGroup -> subjectlib/sched; the rewriter declines anything else) and every synchronisation operation becomes a choice point of a cooperative scheduler; for every tiny configuration (<= 2-3 inputs, <= 2-3 items, capacities 0-2) all schedules are enumerated depth-first up to a per-configuration bound (quick 1 500, thorough 150 000 schedules; configurations finished below the bound are counted as exhaustive), then random schedules of deeper configurations are drawn with rapid. Judged in both: multiset of received items = items sent (per output for Dup), per-input order, f once per item, outputs closed exactly once and only after all inputs, no send on / close of a closed channel, no WaitGroup misuse, no deadlock before completion, nothing left blocked at the end (synctest's durable blocking resp. 'no enabled transition'), and in (a) no race report; one evaluation = one executed schedule; non-trivial = >= 2 channels carrying items or >= 2 items; distinct by configuration+schedule",
+		Quick:       tierPlan{Shards: 16, Checks: 1, Shrink: "30s", Limit: 30 * time.Minute},
+		Thorough:    tierPlan{Shards: 16, Checks: 4, Shrink: "3m", Limit: 5 * time.Hour},
+		Rule:        "two engines over the generated code of Fmap over a channel, the four channel forms of Join plus the variadic form (2-4 channels, mixed direction), Pipeline and Dup. (a) real runtime: the unmodified code, go1.26.8 -race, inside testing/synctest bubbles; a case is a configuration (form, 0-4 inputs, 0-3 items each (thorough 0-5), capacities 0-2, optional prefill) plus a schedule of the external actors: every send, close, hand-over and receive is preceded by a drawn virtual-time delay, which fixes the order of external steps (ties left to the runtime, GOMAXPROCS 1/2/4/16). (b) model scheduler: the generated file is rewritten (chan/go/select/range/close/sync.WaitGroup -> subjectlib/sched; the rewriter declines anything else) and every synchronisation operation becomes a choice point of a cooperative scheduler; for every tiny configuration (<= 2-3 inputs, <= 2-3 items, capacities 0-2) all schedules are enumerated depth-first up to a per-configuration bound (quick 1 500, thorough 150 000 schedules; configurations finished below the bound are counted as exhaustive), then random schedules of deeper configurations are drawn with rapid. Judged in both: multiset of received items = items sent (per output for Dup), per-input order, f once per item, outputs closed exactly once and only after all inputs, no send on / close of a closed channel, no WaitGroup misuse, no deadlock before completion, nothing left blocked at the end (synctest's durable blocking resp. 'no enabled transition'), and in (a) no race report; one evaluation = one executed schedule; non-trivial = >= 2 channels carrying items or >= 2 items; distinct by configuration+schedule",
 		Assumptions: []string{"(a) interleavings of internal goroutines between external steps are the runtime's; (b) the model has Go's channel semantics at synchronisation-operation granularity (differentially tested against real channels in setup) and is faithful only for data-race-free code, which (a) checks dynamically"},
 	},
 	"C20": {
-		Quick:    tierPlan{Shards: 16, Checks: 1, Shrink: "30s", Limit: 30 * time.Minute},
-		Thorough: tierPlan{Shards: 16, Checks: 4, Shrink: "3m", Limit: 5 * time.Hour},
-		Rule: "two engines over the generated deriveDo for 2, 3 and 4 functions. (a) real runtime: unmodified code, go1.26.8 -race, inside testing/synctest bubbles; a case draws the failing subset, a virtual duration per function (fixing the completion order, ties left to the runtime) and 0-2 rendezvous pairs (f_i sends to f_j and waits for the answer, so sequential execution cannot finish). (b) model scheduler: the generated function rewritten onto subjectlib/sched; for n = 2, 3 (thorough: 4) every failing subset x {no rendezvous, every ordered rendezvous pair} is explored depth-first with sleep sets over all interleavings of the functions' completion, the error sends and Do's receives (exhaustive below the bound of 20 000 / 500 000 schedules per configuration). Judged: Do returns only after every function has returned, every value in its position, nil error iff no function failed and otherwise one of the errors actually returned, no deadlock, nothing left blocked afterwards, and in (a) no race report; one evaluation = one executed schedule; non-trivial = a failing function together with a rendezvous pair, or >= 3 functions; distinct by configuration(+schedule)",
+		Quick:       tierPlan{Shards: 16, Checks: 1, Shrink: "30s", Limit: 30 * time.Minute},
+		Thorough:    tierPlan{Shards: 16, Checks: 4, Shrink: "3m", Limit: 5 * time.Hour},
+		Rule:        "two engines over the generated deriveDo for 2, 3 and 4 functions. (a) real runtime: unmodified code, go1.26.8 -race, inside testing/synctest bubbles; a case draws the failing subset, a virtual duration per function (fixing the completion order, ties left to the runtime) and 0-2 rendezvous pairs (f_i sends to f_j and waits for the answer, so sequential execution cannot finish). (b) model scheduler: the generated function rewritten onto subjectlib/sched; for n = 2, 3 (thorough: 4) every failing subset x {no rendezvous, every ordered rendezvous pair} is explored depth-first with sleep sets over all interleavings of the functions' completion, the error sends and Do's receives (exhaustive below the bound of 20 000 / 500 000 schedules per configuration). Judged: Do returns only after every function has returned, every value in its position, nil error iff no function failed and otherwise one of the errors actually returned, no deadlock, nothing left blocked afterwards, and in (a) no race report; one evaluation = one executed schedule; non-trivial = a failing function together with a rendezvous pair, or >= 3 functions; distinct by configuration(+schedule)",
 		Assumptions: []string{"(b) models synchronisation only: the unsynchronised result variables of Do are covered by the race detector in (a)"},
 	},
 }
